@@ -91,10 +91,10 @@ def extract(configs=('default', 'nofeat', 'rel'), repo=None, cache=True, quiet=F
     repo = repo or REPO
     ensure_driver()
     os.makedirs(CACHE, exist_ok=True)
-    lock = open(os.path.join(CACHE, 'lock'), 'w')
+    key = tree_hash(repo)
+    lock = open(os.path.join(CACHE, key + '.lock'), 'w')
     fcntl.flock(lock, fcntl.LOCK_EX)
     try:
-        key = tree_hash(repo)
         d = os.path.join(CACHE, key)
         os.makedirs(d, exist_ok=True)
         need = [c for c in configs if not (cache and os.path.exists(os.path.join(d, c + '.json')))]
@@ -129,9 +129,13 @@ def extract(configs=('default', 'nofeat', 'rel'), repo=None, cache=True, quiet=F
     finally:
         fcntl.flock(lock, fcntl.LOCK_UN)
         lock.close()
+        try:
+            os.remove(os.path.join(CACHE, key + '.lock'))
+        except OSError:
+            pass
 
 
-def _prune(keep, limit=6):
+def _prune(keep, limit=int(os.environ.get('QLINT_CACHE_LIMIT', '8'))):
     """Keep the cache small: drop the oldest fact directories beyond `limit`."""
     ds = []
     for n in os.listdir(CACHE):
